@@ -49,6 +49,14 @@ def main():
             ids.append(args[i]); i += 1
     impl = implemented()
     mids = sorted(os.path.basename(p) for p in glob.glob(f"{VERIF}/seeded/C*-*m*"))
+    obsolete = []
+    for m_ in list(mids):
+        try:
+            if json.load(open(f"{VERIF}/seeded/{m_}/meta.json")).get("obsolete"):
+                obsolete.append(m_)
+                mids.remove(m_)
+        except (OSError, ValueError):
+            pass
     if ids:
         mids = [m for m in mids if m in ids or m.split("-")[0] in ids]
     jobs = []
@@ -59,6 +67,8 @@ def main():
             jobs.append((m, ps))
     with ThreadPoolExecutor(int(os.environ.get("SEED_JOBS", "16"))) as ex:
         results = list(ex.map(lambda j: run_one(*j), jobs))
+    for m_ in obsolete:
+        print(f"{m_:8s} OBSOLETE (see meta.json: no longer a property-breaking change on the repaired tree)")
     caught = 0
     for mid, res in results:
         det = [p for p, v in res.items() if isinstance(v, tuple) and v[0] == 1]
